@@ -250,6 +250,8 @@ def run(ck: Checker, prog: Program, tier: str):
         ck.guard(c09._entry_effects, ck, prog, ("R2a", "R2b"))
         ck.guard(c09._r2c, ck, prog)        # ... and into a private deep copy: the caller's object keeps matching its saved file
     ck.extra["calls_resolved"] = eng.calls_resolved
+    from .common import check_identity_comparisons as _cic
+    ck.guard(_cic, ck, prog, "C15.R1", "C15")
 
 
 def check_constructors(ck: Checker, prog: Program, classes, flagged=None):
